@@ -13,7 +13,8 @@ RULE = ("cases = calls of similarity.distance_to_similarity and similarity.squas
         "[0,1]; the output equals the documented formula evaluated with the reported/explicit parameters; squash is "
         "non-decreasing and inside [0,1] (|.|<=1 with the sign preserved for keep_sign); re-applying with the reported "
         "parameters reproduces the output. non-trivial = >= 3 elements with >= 2 distinct values.")
-ASSUME = ["tolerance 1e-9 relative / 1e-12 absolute", "cover_quantile and its target value are inside (0,1)"]
+ASSUME = ["tolerance 1e-9 relative / 1e-12 absolute", "cover_quantile and its target value are inside (0,1)",
+          "reciprocal with an explicit r and a cover_quantile: only feasible requests (target value < 1/r)"]
 PLAN = Plan("C19", RULE, ASSUME,
             workers={"quick": [("plain", 8, "C19")], "thorough": [("plain", 16, "C19")]},
             deciding=("similarity_calls_checked", "squash_calls_checked", "reapply_checks"))
@@ -92,11 +93,15 @@ def run(ctx):
         if method == "reciprocal" and rng.random() < 0.4:
             kw["a"] = rng.choice([0.5, 1.0, 3.0, 1, 3])
         cq = False
-        if rng.random() < 0.3 and not explicit_r and max(vals) > 0:
+        if rng.random() < 0.3 and (not explicit_r or rng.random() < 0.5) and max(vals) > 0:
             q = rng.choice([0.25, 0.5, 0.8])
             cq = q if rng.random() < 0.5 else (q, rng.choice([0.1, 0.5, 0.9]))
             if np.quantile(D, q) <= 0 and method == "reciprocal":
                 cq = False      # the derived slope is a division by the quantile
+            if cq is not False and method == "reciprocal" and explicit_r:
+                tgt = cq[1] if isinstance(cq, tuple) else 1 - cq
+                if tgt * kw["r"] >= 1:
+                    cq = False  # infeasible request: 1/(r + D*a) <= 1/r < target for every a >= 0
         if cq is not False:
             kw["cover_quantile"] = cq
         wit = dict(fn="distance_to_similarity", D=np.asarray(D).tolist(), method=mname, kwargs={k: (list(v) if isinstance(v, tuple) else v) for k, v in kw.items()})
@@ -118,6 +123,8 @@ def run(ctx):
             bad = "NaN in the output"
         elif not np.array_equal(np.asarray(S_plain), Sa, equal_nan=True):
             bad = "return_params changes the output"
+        elif explicit_r and float(r_used) != float(kw["r"]):
+            bad = "an explicitly given r=%r is not the r that is used and reported (%r)" % (kw["r"], float(r_used))
         else:
             order = sorted(range(len(vals)), key=lambda i: vals[i])
             for a_, b_ in zip(order, order[1:]):
